@@ -28,6 +28,7 @@ import (
 	"sort"
 	"strings"
 	"sync"
+	"unsafe"
 
 	"github.com/krotik/ecal/interpreter"
 	"github.com/krotik/ecal/parser"
@@ -167,6 +168,31 @@ func evErr(err error) string {
 	return fmt.Sprintf("ERR %s %d %d", hx(t), re.Line, re.Pos)
 }
 
+// evErrFull is evErr plus the class of the error and what it carries besides its type:
+//   ERR <type> <line> <col> R                      *util.RuntimeError
+//   ERR <type> <line> <col> D <detail-hex> <data>  *util.RuntimeErrorWithDetail (raise): detail text, canonical data
+//   ERR <type> <line> <col> V <value>              *returnValue: the value that travels with the return signal
+func evErrFull(err error) string {
+	base := evErr(err)
+	if base == "ERRPLAIN" {
+		return base
+	}
+	switch e := err.(type) {
+	case *util.RuntimeError:
+		return base + " R"
+	case *util.RuntimeErrorWithDetail:
+		return base + " D " + hx(e.Detail) + " " + evCanon(e.Data)
+	}
+	rv := reflect.ValueOf(err)
+	if rv.Kind() == reflect.Ptr && rv.Elem().Kind() == reflect.Struct {
+		if f := rv.Elem().FieldByName("returnValue"); f.IsValid() && f.CanAddr() {
+			v := reflect.NewAt(f.Type(), unsafe.Pointer(f.UnsafeAddr())).Elem().Interface()
+			return base + " V " + evCanon(v)
+		}
+	}
+	return base + " ?"
+}
+
 // ---------------------------------------------------------------- AST text
 
 func evSerializeAST(n *parser.ASTNode) string {
@@ -264,7 +290,10 @@ func evPayload(src string) string {
 }
 
 // evRunSource parses, validates and evaluates src with the real code.
-func evRunSource(src string) string {
+func evRunSource(src string) string { return evRunSourceWith(src, evErr) }
+
+// evRunSourceWith is evRunSource with a chosen printer of the final error.
+func evRunSourceWith(src string, perr func(error) string) string {
 	evLog.reset()
 	erp := evNewProvider()
 	ast, err := parser.ParseWithRuntime("t", src, erp)
@@ -272,17 +301,22 @@ func evRunSource(src string) string {
 		return "NOPARSE"
 	}
 	if err = ast.Runtime.Validate(); err != nil {
-		return "V " + evErr(err)
+		return "V " + perr(err)
 	}
 	vs := scope.NewScope(scope.GlobalScope)
 	res, err := ast.Runtime.Eval(vs, make(map[string]interface{}), erp.NewThreadID())
 	out := ""
 	if err != nil {
-		out = evErr(err)
+		out = perr(err)
 	} else {
 		out = "OK " + evCanon(res)
 	}
 	return out + " LOG " + evLog.String()
+}
+
+// evRunFull is evRun with class, detail and data of the final error (evErrFull).
+func evRunFull(payload string) string {
+	return evRunSourceWith(unhx(strings.SplitN(payload, " ", 2)[0]), evErrFull)
 }
 
 // evRun is Prop.Run for payloads built by evPayload.
